@@ -398,7 +398,10 @@ func deepDoc(r *core.Rand, maxLen int, thorough bool) deepCase {
 		kind := r.Intn(5) // list tuple set object map
 		d := []int{40, 200, 600, 1500, 3000, 9990, 10001, 12000}[r.Intn(8)]
 		dynamic := r.Chance(1, 5)
-		withTarget := r.Chance(2, 3)
+		withTarget := r.Chance(1, 2)
+		if withTarget && !thorough && !r.Chance(1, 6) {
+			d = []int{10, 40, 120, 300}[r.Intn(4)] // quick: the value decoder's quadratic cost is paid on few cases only
+		}
 		pad := 0
 		if r.Chance(1, 3) {
 			pad = []int{1000, 20000, 60000, 900000}[r.Intn(4)]
@@ -479,6 +482,9 @@ func deepDoc(r *core.Rand, maxLen int, thorough bool) deepCase {
 	}
 	if withTarget && d > 5000 {
 		d = 5000 // the harness' own validity walk builds a path string per level
+	}
+	if withTarget && !thorough && d > 1000 && !r.Chance(1, 4) {
+		d = 1000
 	}
 	if kind == 2 && withTarget && !dynamic && d > 10 {
 		d = 6 + r.Intn(5) // nested sets: exponential time in the library
